@@ -7,6 +7,7 @@ func ruleC08(prog *Program, rep *Report) {
 	rulePoolPut(prog, rep)
 	ruleReturnAlias(prog, rep, "C08")
 	ruleGlobals(prog, rep)
+	ruleGlobalWrite(prog, rep)
 	rulePreRegister(prog, rep)
 	ruleFieldLoopBounds(prog, rep, []string{"alt"}) // a field the registration walk leaves out is registered lazily, during a shared Recompose
 	ruleFullRange(prog, rep, 4, "alt", "oj", "sen", "gen", "pretty", "asm", "jp", "")
@@ -14,5 +15,6 @@ func ruleC08(prog *Program, rep *Report) {
 	// state shared between goroutines
 	ruleEntryParity(prog, rep)
 	ruleSharedExpr(prog, rep)
+	ruleBorrowedWrites(prog, rep) // what a pooled parser or writer is left with is what the next, possibly concurrent, caller starts from
 	ruleCacheRead(prog, rep) // a plan looked up in the wrong cache makes a result depend on what other goroutines encoded first
 }
